@@ -340,6 +340,10 @@ func twConfigs(kind, tier string) []twCfg {
 	for _, unit := range []string{"ss", "ns"} {
 		out = append(out, twCfg{Kind: kind, SizeMs: 4000, Slide: 2000, OOOMs: 2000, Keys: 1, MaxL: maxL, Eager: true, Unit: unit})
 	}
+	// a tolerance larger than the window size
+	for _, ss := range [][2]int64{{2000, 2000}, {4000, 2000}} {
+		out = append(out, twCfg{Kind: kind, SizeMs: ss[0], Slide: ss[1], OOOMs: 5000, Keys: 1, MaxL: maxL, Eager: true})
+	}
 	for _, eager := range []bool{false, true} {
 		out = append(out, twCfg{Kind: kind, SizeMs: 7000, Slide: 3500, OOOMs: 2000, Keys: 1, MaxL: maxL, Eager: eager}) // slide not dividing 24h
 	}
